@@ -279,11 +279,14 @@ def run_chunk(common, ch, cfgs_of, maxlen, label="engine", sanitize=False):
                 pass
     K.table = {}
     K.names = {}
+    K.rof = set()
     for l in p.stdout.split("\n"):
         if l.startswith("NODE "):
             a, h = l[5:].split("|", 1)
             t = a.split()
             K.table[int(t[0])] = {"enabled": t[1] == "1", "named": t[2] == "1", "subs": [int(x) for x in t[4:]], "head": h.split()}
+        elif l.startswith("ROF "):
+            K.rof.add(int(l.split()[1]))
         elif l.startswith("NAME "):
             t = l.split()
             nm = bytes.fromhex(t[2]).decode("latin1") if t[2] != "-" else ""
@@ -306,7 +309,7 @@ def run_chunk(common, ch, cfgs_of, maxlen, label="engine", sanitize=False):
 
 
 # --------------------------------------------------------------------------- canonical comparison
-def expected_message(K, gid, who):
+def expected_message(K, gid, who, ctl=None):
     if who == "LD":
         return "maximum parser rule nesting depth exceeded"
     if who == "LB":
@@ -314,6 +317,8 @@ def expected_message(K, gid, who):
     if who == "CB":
         return "maximum allowed rule consumption exceeded"
     nm, ms = K.names.get(int(who), ("?", ""))
+    if ctl is not None and int(ctl) >= 4 and int(who) in getattr(K, "rof", ()):
+        return "mustif"               # must_if< mi_errors >::control: the message of the control's error table wins
     if ms.startswith("M"):
         return ms[1:]
     return "parse error matching " + nm
@@ -326,10 +331,12 @@ def canon_model_res(C, rec):
         return r
     parts = r[1:].split(">")
     out = []
-    for p in parts:
+    for i, p in enumerate(parts):
         if p.startswith("P:"):
             _, who, pos = p.split(":", 2)
-            out.append("P:" + expected_message(C, rec["gid"], who).encode("latin1").hex() + ":" + pos)
+            # every level but the innermost was produced by raise_nested, which must_if does not customise (normal.hpp message)
+            ctl = rec["cfg"].split(".")[1] if i == len(parts) - 1 else None
+            out.append("P:" + expected_message(C, rec["gid"], who, ctl).encode("latin1").hex() + ":" + pos)
         else:
             out.append(p)
     return "X" + ">".join(out)
